@@ -24,11 +24,14 @@ EXTENDS Integers, Sequences, FiniteSets, TLC
 CONSTANTS Forms,      \* menu of forms
           MaxReqs     \* requests per connection
 
-Modes == {"preparse", "ondemand", "ondemandlimit", "untouched"}
+Modes == {"preparse", "ondemand", "ondemandlimit", "ondemandhijack", "untouched"}
 \* preparse : DisablePreParseMultipartForm = false, the server parses while reading the body
 \* ondemand : the handler calls ctx.MultipartForm()
 \* ondemandlimit: the handler calls MultipartFormWithLimit with a limit one byte below the body
 \*            size: the form is parsed (and spooled), found too large, and must be removed again
+\* ondemandhijack: the handler parses the form and hijacks the connection; the request's files
+\*            must be gone once the hijack handler has returned and the connection is over,
+\*            with and without KeepHijackedConns
 \* untouched: the handler never looks at the form
 Brokens == {"no", "truncated", "epilogue"}
 \* truncated: the body ends inside the last part (no closing boundary)
@@ -41,19 +44,27 @@ HugeFiles(f) == { i \in DOMAIN f.files : f.files[i][3] = "huge" }
 BigFiles(f) == { i \in DOMAIN f.files : f.files[i][3] \in {"big", "huge"} }
 \* combinations worth distinguishing (a huge file costs 16 MiB per replay)
 Relevant(f, m, b) == /\ (HugeFiles(f) # {} => m = "preparse")
+                     /\ (m = "ondemandhijack" => b = "no")
                      /\ (b = "epilogue" => m = "preparse")
 
 VARIABLES
   stream,   \* configuration of the server for this connection
+  keepHij,  \* Server.KeepHijackedConns
+  noPre,    \* DisablePreParseMultipartForm: fixed-length multipart bodies are not pre-parsed either
+            \* (otherwise on-demand parsing is only reachable through chunked bodies)
+  poolLimit,\* a request body pool size limit is configured (SetBodySizePoolLimit): big body
+            \* buffers are dropped at Reset instead of being kept
   hist,     \* requests so far: [form, mode, broken]
   phase,    \* "wait" | "arrived" | "handler" | "closed"
   parsed,   \* form of the current request has been parsed
   tmp,      \* set of <<request index, file index>> temp files on disk
   seenTmp   \* history: tmp as found at each HandlerStart and at Close
 
-vars == <<stream, hist, phase, parsed, tmp, seenTmp>>
+vars == <<stream, keepHij, noPre, poolLimit, hist, phase, parsed, tmp, seenTmp>>
 
-Init == /\ stream \in Streams /\ hist = <<>> /\ phase = "wait" /\ parsed = FALSE /\ tmp = {} /\ seenTmp = <<>>
+Init == /\ stream \in Streams /\ keepHij \in BOOLEAN /\ poolLimit \in (IF stream THEN BOOLEAN ELSE {FALSE})
+        /\ noPre \in (IF stream THEN BOOLEAN ELSE {FALSE})
+        /\ hist = <<>> /\ phase = "wait" /\ parsed = FALSE /\ tmp = {} /\ seenTmp = <<>>
 
 Cur == hist[Len(hist)]
 K == Len(hist)
@@ -62,53 +73,54 @@ K == Len(hist)
 \* its size: nothing is spooled.  In streaming mode the on-demand parser spools files above
 \* 8 KiB.  Pre-parsing (both modes) spools files above 16 MiB.
 SpooledBy(mode, f) == CASE mode = "preparse" -> HugeFiles(f)
-                        [] mode \in {"ondemand", "ondemandlimit"} -> IF stream THEN BigFiles(f) ELSE {}
+                        [] mode \in {"ondemand", "ondemandlimit", "ondemandhijack"} -> IF stream THEN BigFiles(f) ELSE {}
                         [] OTHER -> {}
 
 Arrive(f, m, broken) ==
-  /\ phase = "wait" /\ K < MaxReqs /\ Relevant(f, m, broken)
+  /\ phase = "wait" /\ K < MaxReqs /\ Relevant(f, m, broken) /\ (m = "preparse" => ~noPre)
   /\ hist' = Append(hist, [form |-> f, mode |-> m, broken |-> broken])
   /\ phase' = "arrived"
   /\ parsed' = (m = "preparse" /\ broken = "no")
   \* the pre-parser spools while the body is read; a failed pre-parse removes what it spooled
   /\ tmp' = IF m = "preparse" /\ broken = "no" THEN tmp \cup { <<K + 1, i>> : i \in SpooledBy("preparse", f) } ELSE tmp
-  /\ UNCHANGED <<stream, seenTmp>>
+  /\ UNCHANGED <<stream, keepHij, noPre, poolLimit, seenTmp>>
 
 \* a malformed pre-parsed form is a read error: error response, connection closed, nothing kept
 ArriveFails ==
   /\ phase = "arrived" /\ Cur.mode = "preparse" /\ Cur.broken # "no"
   /\ seenTmp' = Append(seenTmp, tmp)
   /\ phase' = "closed"
-  /\ UNCHANGED <<stream, hist, parsed, tmp>>
+  /\ UNCHANGED <<stream, keepHij, noPre, poolLimit, hist, parsed, tmp>>
 
 \* (seenTmp records the files of EARLIER requests; a pre-parsed request's own files exist already)
 HandlerStart ==
   /\ phase = "arrived" /\ ~(Cur.mode = "preparse" /\ Cur.broken # "no")
   /\ seenTmp' = Append(seenTmp, { t \in tmp : t[1] # K })
   /\ phase' = "handler"
-  /\ UNCHANGED <<stream, hist, parsed, tmp>>
+  /\ UNCHANGED <<stream, keepHij, noPre, poolLimit, hist, parsed, tmp>>
 
 ParseOnDemand ==
-  /\ phase = "handler" /\ Cur.mode \in {"ondemand", "ondemandlimit"} /\ ~parsed
+  /\ phase = "handler" /\ Cur.mode \in {"ondemand", "ondemandlimit", "ondemandhijack"} /\ ~parsed
   /\ parsed' = TRUE
-  /\ tmp' = IF Cur.mode = "ondemand" /\ Cur.broken = "no"
+  /\ tmp' = IF Cur.mode \in {"ondemand", "ondemandhijack"} /\ Cur.broken = "no"
             THEN tmp \cup { <<K, i>> : i \in SpooledBy("ondemand", Cur.form) }
             ELSE tmp          \* a failed or over-limit parse removes whatever it had spooled
-  /\ UNCHANGED <<stream, hist, phase, seenTmp>>
+  /\ UNCHANGED <<stream, keepHij, noPre, poolLimit, hist, phase, seenTmp>>
 
 \* response written, Request.Reset: the request's temporary files are removed
 HandlerDone ==
-  /\ phase = "handler" /\ (Cur.mode \in {"ondemand", "ondemandlimit"} => parsed)
-  /\ tmp' = { t \in tmp : t[1] # K }
+  /\ phase = "handler" /\ (Cur.mode \in {"ondemand", "ondemandlimit", "ondemandhijack"} => parsed)
+  /\ tmp' = { t \in tmp : t[1] # K }      \* (for a hijack: when the hijack handler has returned)
   /\ parsed' = FALSE
-  /\ phase' = "wait"
-  /\ UNCHANGED <<stream, hist, seenTmp>>
+  \* a hijacked connection is not served again: only Close can follow
+  /\ phase' = IF Cur.mode = "ondemandhijack" THEN "hijacked" ELSE "wait"
+  /\ UNCHANGED <<stream, keepHij, noPre, poolLimit, hist, seenTmp>>
 
 Close ==
-  /\ phase = "wait"
+  /\ phase \in {"wait", "hijacked"}
   /\ seenTmp' = Append(seenTmp, tmp)
   /\ phase' = "closed"
-  /\ UNCHANGED <<stream, hist, parsed, tmp>>
+  /\ UNCHANGED <<stream, keepHij, noPre, poolLimit, hist, parsed, tmp>>
 
 Next == \/ \E f \in Forms, m \in Modes, b \in Brokens : Arrive(f, m, b)
         \/ ArriveFails \/ HandlerStart \/ ParseOnDemand \/ HandlerDone \/ Close
